@@ -11,6 +11,7 @@
 -/
 import Gedcom.Lemmas.Html
 import Gedcom.Model.HtmlSinks
+import Gedcom.Lemmas.Rewrite
 namespace Gedcom.C18
 open Gedcom Gedcom.Html
 
@@ -279,6 +280,72 @@ set_option maxRecDepth 1000000 in
     feeds a known sink, and a raw sink only ever receives literals (constants, literal-only locals
     and helpers, Sprintf of those) — or an expression on the allow-list, with its reason -/
 theorem raw_sinks_fed_by_literals : Generated.sinkCalls.all sinkCallOk = true := by decide
+
+/-! ### The escaping code itself, translated from the source (go/ast → `Generated.Escapers`)
+
+  The statements of `(*Text).WriteHTMLTo` and the expressions between a value and the page in
+  `(*Tag)`, `(*Anchor)` and `(*TableHead).WriteHTMLTo` are programs of `Gedcom.Rewrite`; running
+  them is the model's `renderText` / `encode`, so `escape_safe`, `text_amp`, `encode_safe`,
+  `render_wellNested` … are statements about the translated code. -/
+
+open Gedcom.Rewrite in
+/-- every translated statement / expression is inside the fragment (nothing became `.bad`) -/
+theorem escapers_translated :
+    progOk Generated.textProgram = true ∧ progOk Generated.attrProgram = true ∧
+    progOk Generated.anchorProgram = true ∧ progOk Generated.headProgram = true := by decide
+
+/-- `html.EscapeString` of the standard library is the per-byte table seen through the components -/
+theorem std_escape_is_the_probed_table :
+    Generated.stdEscapeTable = Generated.textEscTable ∧ Generated.stdEscapeTable = Generated.headEscTable
+    ∧ Generated.stdEscapeTable = Generated.anchorEscTable := by decide
+
+open Gedcom.Rewrite in
+/-- running the statements of `(*Text).WriteHTMLTo` is the model's `renderText`, for every value -/
+theorem text_is_the_source (s : Str) :
+    runProg Generated.stdEscapeTable Generated.textProgram s = some (renderText s) := by
+  have hp : Generated.textProgram =
+      [.replaceAll Generated.textReplaceBefore.1 Generated.textReplaceBefore.2, .escapeString,
+       .replaceAll Generated.textReplaceAfter.1 Generated.textReplaceAfter.2] := rfl
+  rw [hp, std_escape_is_the_probed_table.1]
+  rfl
+
+open Gedcom.Rewrite in
+/-- … `(*Anchor)` and `(*TableHead)` apply `html.EscapeString`, which is `encode .anchor/.head` -/
+theorem anchor_is_the_source (n : Str) :
+    runProg Generated.stdEscapeTable Generated.anchorProgram n = some (encode .anchor n) := by
+  have hp : Generated.anchorProgram = [.escapeString] := rfl
+  rw [hp, std_escape_is_the_probed_table.2.2]; rfl
+
+open Gedcom.Rewrite in
+theorem head_is_the_source (c : Str) :
+    runProg Generated.stdEscapeTable Generated.headProgram c = some (encode .head c) := by
+  have hp : Generated.headProgram = [.escapeString] := rfl
+  rw [hp, std_escape_is_the_probed_table.2.1]; rfl
+
+open Gedcom.Rewrite in
+/-- … and the `strings.NewReplacer` of `(*Tag).WriteHTMLTo` is `encode .attr` -/
+theorem attr_is_the_source (v : Str) :
+    runProg Generated.stdEscapeTable Generated.attrProgram v = some (encode .attr v) := by
+  obtain ⟨pairs, hp, hs, hb⟩ : ∃ pairs, Generated.attrProgram = [.replacer pairs] ∧ singleByte pairs = true
+      ∧ ∀ n, n < 256 → escByte (tableOf pairs) (UInt8.ofNat n) = escByte Generated.attrEscTable (UInt8.ofNat n) :=
+    ⟨_, rfl, by decide, by decide +kernel⟩
+  rw [hp]
+  simp only [runProg, runOp]
+  rw [replacerGo_single pairs hs]
+  congr 1
+  apply escWith_congr
+  intro b
+  have := hb b.toNat (UInt8.toNat_lt b)
+  simpa using this
+
+open Gedcom.Rewrite in
+/-- hence: whatever the translated `(*Text).WriteHTMLTo` writes contains none of `< > " '` -/
+theorem source_text_safe (s o : Str) (h : runProg Generated.stdEscapeTable Generated.textProgram s = some o) :
+    ∀ b ∈ o, b ≠ 60 ∧ b ≠ 62 ∧ b ≠ 34 ∧ b ≠ 39 := by
+  rw [text_is_the_source] at h
+  have : o = renderText s := by simpa using h.symm
+  subst this
+  exact fun b hb => escape_safe s b hb
 
 /-! ### Non-vacuity -/
 
